@@ -119,6 +119,10 @@ func (r *Run) call(st *State, fr *Frame, x *ssa.Call, b *ssa.BasicBlock, idx int
 			return false
 		}
 	}
+	if spec := r.v.funcTypeSpec(com.Value.Type()); spec != nil {
+		fr.regs[x] = r.applyContract(st, fr, x, nil, spec, spec.Pkg, append([]*Val{fv}, args...), te)
+		return true
+	}
 	if r.v.isPureFuncType(com.Value.Type()) || r.isPureField(fr, com.Value) {
 		sig := types.Unalias(te.apply(com.Value.Type())).Underlying().(*types.Signature)
 		fr.regs[x] = r.applyPureFuncValue(fv, sig, args, te)
@@ -264,9 +268,12 @@ func (r *Run) applyContract(st *State, fr *Frame, x *ssa.Call, callee *ssa.Funct
 			}
 		}
 	} else {
-		// interface method: receiver is "recv", parameters by declared name or p0, p1, ...
-		m := x.Common().Method
-		sig = m.Type().(*types.Signature)
+		// interface method / function value: receiver is "recv", parameters by declared name or p0, p1, ...
+		if m := x.Common().Method; m != nil {
+			sig = m.Type().(*types.Signature)
+		} else {
+			sig = types.Unalias(cte.apply(x.Common().Value.Type())).Underlying().(*types.Signature)
+		}
 		vars["recv"] = args[0]
 		for i := 0; i < sig.Params().Len(); i++ {
 			n := sig.Params().At(i).Name()
